@@ -374,6 +374,96 @@ impl Diagram {
         d
     }
 
+    /// Reidemeister II at the PD level: every way of pushing a finger of edge `a` over (or under)
+    /// edge `b` across a common face.  Generated combinatorially: two new crossings x, y on the
+    /// two edges, both directions of b relative to a, both over/under choices, all sign choices;
+    /// kept iff well formed, planar, of opposite signs, `a` on the same level at both crossings and
+    /// the two new edge segments between x and y bound a bigon FACE (so the bigon is empty and the
+    /// inverse R2 move restores the original diagram).  Contains parallel and antiparallel R2,
+    /// between the same or different components.
+    pub fn r2_moves(&self) -> Vec<Diagram> {
+        let outs = self.out_darts();
+        let mut res = vec![];
+        for &oa in &outs {
+            for &ob in &outs {
+                if oa == ob {
+                    continue;
+                }
+                let (ia, ib) = (self.partner[oa], self.partner[ob]);
+                for code in 0..16u32 {
+                    let (dirx, diry, a_over, b_rev) = (code & 1 == 1, code & 2 != 0, code & 4 != 0, code & 8 != 0);
+                    if dirx == diry {
+                        continue; // R2 crossings have opposite signs
+                    }
+                    let n = self.n;
+                    let (x, y) = (n, n + 1);
+                    let mut d = Diagram { n: n + 2, dir: self.dir.clone(), partner: self.partner.clone() };
+                    d.dir.push(dirx);
+                    d.dir.push(diry);
+                    d.partner.extend([usize::MAX; 8]);
+                    let slots = |d: &Diagram, c: usize, over: bool| -> (usize, usize) {
+                        // (incoming dart, outgoing dart) of the over / under strand at crossing c
+                        if over {
+                            (4 * c + d.over_in(c), 4 * c + d.over_out(c))
+                        } else {
+                            (4 * c, 4 * c + 2)
+                        }
+                    };
+                    let (ax_in, ax_out) = slots(&d, x, a_over);
+                    let (ay_in, ay_out) = slots(&d, y, a_over);
+                    let (bx_in, bx_out) = slots(&d, x, !a_over);
+                    let (by_in, by_out) = slots(&d, y, !a_over);
+                    let mut glue = |p: usize, q: usize| {
+                        d.partner[p] = q;
+                        d.partner[q] = p;
+                    };
+                    // strand a: oa -> x -> y -> ia
+                    glue(oa, ax_in);
+                    glue(ax_out, ay_in);
+                    glue(ay_out, ia);
+                    // strand b: ob -> first -> second -> ib
+                    let (b_seg_out, _b_seg_in);
+                    if !b_rev {
+                        glue(ob, bx_in);
+                        glue(bx_out, by_in);
+                        glue(by_out, ib);
+                        b_seg_out = bx_out;
+                        _b_seg_in = by_in;
+                    } else {
+                        glue(ob, by_in);
+                        glue(by_out, bx_in);
+                        glue(bx_out, ib);
+                        b_seg_out = by_out;
+                        _b_seg_in = bx_in;
+                    }
+                    if !d.well_formed() || !d.is_planar() {
+                        continue;
+                    }
+                    // bigon face: the orbit of one of the two darts of a's middle segment under
+                    // dart -> rot(partner(dart)) has length 2 and consists of the two middle segments
+                    let next = |dd: usize| {
+                        let p = d.partner[dd];
+                        (p / 4) * 4 + (p % 4 + 1) % 4
+                    };
+                    let seg_b: [usize; 2] = [b_seg_out, d.partner[b_seg_out]];
+                    let mut bigon = false;
+                    for start in [ax_out, d.partner[ax_out]] {
+                        let s1 = next(start);
+                        if next(s1) == start && seg_b.contains(&s1) {
+                            bigon = true;
+                        }
+                    }
+                    if bigon {
+                        res.push(d);
+                    }
+                }
+            }
+        }
+        res.sort_by(|p, q| (&p.dir, &p.partner).cmp(&(&q.dir, &q.partner)));
+        res.dedup();
+        res
+    }
+
     // ---- Kauffman state sum ------------------------------------------------------------------------
 
     /// unnormalised Jones polynomial in q (exponent -> coefficient):
@@ -829,6 +919,44 @@ mod tests {
 #[cfg(test)]
 mod move_tests {
     use super::*;
+
+    #[test]
+    fn pd_level_r2_moves_are_isotopies() {
+        let mut total = 0;
+        let mut antiparallel_seen = false;
+        for n in 0..=2usize {
+            for d in all_planar_diagrams(n).into_iter().chain(if n == 0 { vec![] } else { vec![] }) {
+                let j = d.jones();
+                let k = khovanov::<Z>(&d, &z(0), &z(0), None).bigraded.unwrap();
+                let comps = d.components().len();
+                for d2 in d.r2_moves() {
+                    total += 1;
+                    assert_eq!(d2.n, d.n + 2);
+                    assert_eq!(d2.components().len(), comps);
+                    assert_eq!(d2.jones(), j, "R2 changed the state sum of {:?}", d.pd());
+                    let k2 = khovanov::<Z>(&d2, &z(0), &z(0), None).bigraded.unwrap();
+                    assert_eq!(k.keys().collect::<Vec<_>>(), k2.keys().collect::<Vec<_>>());
+                    for (key, m) in &k {
+                        assert!(k2[key].same(m.rank, &m.tors));
+                    }
+                    // antiparallel: the two strands run through the bigon in opposite directions,
+                    // i.e. b visits the new crossings in the order y, x
+                    let e = d2.edge_of_dart();
+                    let (x, y) = (d.n, d.n + 1);
+                    // strand b leaves y towards x ?
+                    for s in 0..4 {
+                        let o = 4 * y + s;
+                        if d2.is_out(o) && d2.partner[o] / 4 == x {
+                            antiparallel_seen = true;
+                        }
+                    }
+                    let _ = e;
+                }
+            }
+        }
+        assert!(total > 50, "only {total} R2 moves generated");
+        assert!(antiparallel_seen);
+    }
 
     /// the R3 sign rule used by the harness: (e,d,z) is allowed unless e == z != d
     #[test]
